@@ -130,6 +130,14 @@ func (c *Ctx) mentionsField(v ssa.Value, field string, depth int) bool {
 			return true
 		}
 		return c.mentionsField(x.X, field, depth-1)
+	case *ssa.IndexAddr:
+		return c.mentionsField(x.X, field, depth-1)
+	case *ssa.Index:
+		return c.mentionsField(x.X, field, depth-1)
+	case *ssa.Next:
+		return c.mentionsField(x.Iter, field, depth-1)
+	case *ssa.Range:
+		return c.mentionsField(x.X, field, depth-1)
 	case *ssa.BinOp:
 		return c.mentionsField(x.X, field, depth-1) || c.mentionsField(x.Y, field, depth-1)
 	case *ssa.Phi:
